@@ -65,6 +65,38 @@ def permuted_twin(sp, rng):
                                origin=sp.origin)
 
 
+def redefined_twin(sp, rng):
+    """Same names everywhere, but the exploit / escalation definitions, scan
+    costs and host contents behind those names differ."""
+    can = sp.canonical()
+    for e in list(can["exploits"].values()) + list(can["privescs"].values()):
+        r = rng.random()
+        if r < 0.4:
+            e["cost"] = e["cost"] + rng.choice([1, 0.5])
+        elif r < 0.7:
+            e["access"] = 3 - e["access"]
+        else:
+            e["prob"] = rng.choice([p for p in (0.0, 0.3, 0.7, 1.0)
+                                    if p != e["prob"]])
+    for k in can["scan_costs"]:
+        if rng.random() < 0.5:
+            can["scan_costs"][k] = can["scan_costs"][k] + 1
+    for h in can["hosts"]:
+        if rng.random() < 0.5:
+            h[2] = sorted(rng.sample(sp.services,
+                                     rng.randint(1, len(sp.services))))
+        if rng.random() < 0.3:
+            h[1] = rng.choice(sp.os)
+    return spec_from_canonical(can, name=sp.name + "-redefined",
+                               origin=sp.origin)
+
+
 def any_twin(sp, rng):
-    t = permuted_twin(sp, rng) if rng.random() < 0.5 else None
-    return t or renamed_twin(sp, rng)
+    r = rng.random()
+    if r < 0.4:
+        t = permuted_twin(sp, rng)
+        if t is not None:
+            return t
+    if r < 0.7:
+        return renamed_twin(sp, rng)
+    return redefined_twin(sp, rng)
